@@ -29,3 +29,12 @@ Theorem C09_peaks_table :
   = [[PNone; PNone; PNone]; [PNone; PNone; PMax]; [PNone; PNone; PNone]; [PMin; PNone; PNone]].
 Proof. exact peaks_table. Qed.
 Print Assumptions C09_peaks_table.
+
+(* No false alarm: the boolean reading of this property that the correspondence check evaluates on the IMPLEMENTATION's
+   outputs (Check/C09.v, verdict bit 2) can never fail on outputs that agree with the model (bit 1 clear); side conditions,
+   where there are any, are boolean and say which recorded observations the model comparison does not cover. *)
+From Coq Require Import NArith.
+From Signalo Require Base.Report Check.C09 Proofs.Sound_C09.
+Theorem C09_checker_no_false_alarm : forall c : Signalo.Check.C09.case, N.land (Signalo.Base.Report.code (Signalo.Check.C09.check c)) 3 <> 2%N.
+Proof. exact Signalo.Proofs.Sound_C09.C09_check_sound. Qed.
+Print Assumptions C09_checker_no_false_alarm.
